@@ -7,6 +7,7 @@ import (
 	"encoding/binary"
 	"encoding/hex"
 	"fmt"
+	"os"
 	"runtime"
 	"strconv"
 	"strings"
@@ -17,6 +18,8 @@ import (
 
 	"verif/core"
 )
+
+var traceOps = os.Getenv("KEYSIM_TRACE") != ""
 
 const sigAuthOffset = 4 + 32 + 67*32 // index, R, WOTS signature (w=16, n=32)
 
@@ -205,6 +208,27 @@ func fullSnapshotDiff(a, b *xmss.VerifState) string {
 	return ""
 }
 
+// heldSig is a signature exactly as the key returned it (the slice itself, not
+// a copy) with its digest at that moment. A caller keeps signatures; if a later
+// operation of the key rewrites one in place it no longer verifies.
+type heldSig struct {
+	idx uint32
+	sig []byte
+	sum [32]byte
+	msg []byte
+}
+
+// checkHeld: every signature still held must be byte-identical to what was returned.
+func (x *xexec) checkHeld() {
+	for _, h := range x.heldSigs {
+		if sha256.Sum256(h.sig) != h.sum {
+			x.violate("C01", "returned-signature-rewritten", fmt.Sprintf("%s,idx=%d", x.cfgSig(), h.idx), fmt.Sprintf("the signature returned at index %d was modified in place by a later operation of the key; the caller's copy no longer verifies", h.idx))
+			x.heldSigs = nil
+			return
+		}
+	}
+}
+
 // snap takes a state snapshot through the hook; nil if the hook cannot cope
 // with the (changed) library's layout.
 func snap(k *xmss.XMSS) (s *xmss.VerifState) {
@@ -236,6 +260,7 @@ type xexec struct {
 	dead      bool // live object unusable after a failed valid op; stop
 	opNo      int
 	stepNo    int64
+	heldSigs  []heldSig // signatures the key returned, kept as returned (no copy)
 	pendSnap  []string // snapshot differences awaiting confirmation by observation
 	diverged  bool     // an observable live/twin divergence was reported
 	// durable record (copied, never aliases the object)
@@ -349,6 +374,9 @@ func RunXMSS(ep *Episode) *Result {
 		}
 		x.opNo = i
 		op := &ep.Ops[i]
+		if traceOps {
+			fmt.Fprintf(os.Stderr, "KEYSIM-TRACE op=%d\n", i)
+		}
 		switch op.K {
 		case "sign":
 			x.doSign(core.MsgBytes(op.MS, op.ML))
@@ -371,12 +399,16 @@ func RunXMSS(ep *Episode) *Result {
 			panic("unknown op kind " + op.K)
 		}
 	}
+	if traceOps {
+		fmt.Fprintf(os.Stderr, "KEYSIM-TRACE op=%d\n", len(ep.Ops))
+	}
 	if !x.dead {
 		x.drain()
 	}
 	if !x.dead {
 		x.checkObs(true, "end")
 	}
+	x.checkHeld()
 	// snapshot differences that no observation confirmed
 	if len(x.pendSnap) > 0 && !x.diverged {
 		if x.model >= x.leaves { // drained to the end of life: provably dead state
@@ -483,6 +515,10 @@ func (x *xexec) doSign(msg []byte) {
 		x.checkObs(false, "sign")
 		// C01
 		x.checkSignature(msg, sig, idx)
+		x.checkHeld()
+		if len(x.heldSigs) < 48 {
+			x.heldSigs = append(x.heldSigs, heldSig{idx, sig, sha256.Sum256(sig), msg})
+		}
 		// twin
 		if x.twin != nil && x.twinMode == "ff" {
 			// the twin never signs: it follows by SetIndex, so every index
